@@ -7,6 +7,7 @@ import (
 	"os"
 	"path/filepath"
 	"strings"
+	"syscall"
 	"unicode"
 	"unicode/utf8"
 
@@ -25,7 +26,7 @@ func init() {
 		Level: "exploration",
 		Rule: "(1) sanitize.Path / PathOr on every string of <=4 (thorough 5) symbols over a 23-symbol alphabet with one representative per class the sanitizer branches on (/ \\ . space tab : NUL 0x01 0x7F U+0085 U+00A0 U+2028 < * _ a, an invalid UTF-8 byte, and the tokens '..', 'C:', 'CON', 'nul', 'COM1', 'LPT9.txt'), plus long names: every prefix of <=2 symbols before/after a filler of 60..4096 bytes x 6 suffixes; (2) call sites under a filesystem monitor (every path handed to a creating os call must have the output directory as parent): ExtractAttachmentsFile on documents carrying every (name tree key, /F = /UF) pair of a 9 x 44 hostile name product and (/F, /UF) pairs of a 12-name subset; (3) every ordered pair of attachment names from a 26-string set with sanitizer- and case-equivalent members: both files exist with their own bytes, or the collision error is returned and the directory is unchanged; " +
 			"non-trivial = an input containing a separator, dot-dot, drive, control or reserved token",
-		Assume: []string{"call sites covered so far: attachment extraction (file and name tree key paths); split-by-bookmark, image/font/content/page extraction and multi-fill names are driven through the same sanitizer (part 1) but not yet through their own call sites"},
+		Assume:   []string{"call sites covered so far: attachment extraction (file and name tree key paths); split-by-bookmark, image/font/content/page extraction and multi-fill names are driven through the same sanitizer (part 1) but not yet through their own call sites"},
 		Run:      func(r *core.R) { core.Sharded(r, core.Workers()) },
 		RunShard: c05shard,
 	})
@@ -169,6 +170,8 @@ func c05shard(r *core.R, shard, n int) {
 	defer os.RemoveAll(base)
 	names := []string{"a.txt", "..", ".", "/", "", " ", "...", "a\x00b", "../x.txt", "../../x", "/abs/x.txt", "C:\\x.txt", "C:x", "\\\\srv\\share\\x", "CON", "nul.txt", "COM1", "a/b", "a\\b", "..\\y", "x\ny", "x\ty", "\x01", "x\x7fy", "x\u0085y", "x\u2028y", "a:b", "<x>", "x*?", "\xff\xfe", " lead", "trail ", "trail.", ".hidden", "..a", "a..", "a/../b", "./a", "a/.", "a//b", "\u00a0", "con.TXT.txt", "lpt9", "x|y"}
 	keys := []string{"k.txt", "../escaped.txt", "/abs/k", "..", "a/../../k", "C:\\k", "k\x00k", "CON", " "}
+	// failAt >= 0: the failAt-th intercepted call of the extraction fails with failWith (descriptor exhaustion etc.)
+	failAt, failWith, nEvents := -1, syscall.EMFILE, 0
 	run := func(doc []byte, tag string, judgeCollision bool, want map[string][]byte) {
 		dir := filepath.Join(base, "w")
 		os.RemoveAll(dir)
@@ -178,7 +181,12 @@ func c05shard(r *core.R, shard, n int) {
 		os.WriteFile(filepath.Join(dir, "deep", "victim.txt"), []byte("victim"), 0o644)
 		t0 := fsx.Snap(dir)
 		var escapes []string
+		nEvents = 0
 		vos.Before = func(ev *vos.Event) error {
+			nEvents++
+			if nEvents-1 == failAt {
+				return failWith
+			}
 			creating := false
 			p := ev.Path
 			switch ev.Kind {
@@ -248,7 +256,10 @@ func c05shard(r *core.R, shard, n int) {
 					nfiles++
 				}
 			}
-			if err != nil {
+			if err != nil && failAt >= 0 {
+				// the injected failure made the extraction fail: what is left behind is C01's subject
+				r.Count("faulted_pair_failed", 1)
+			} else if err != nil {
 				if !errors.Is(err, api.ErrAttachmentOutputCollision) {
 					r.Count("pair_other_error", 1)
 				} else {
@@ -319,6 +330,29 @@ func c05shard(r *core.R, shard, n int) {
 			doc := docgen.WithAttachments([]docgen.AttSpec{{Key: "k1", F: n1, UF: n1, Data: d1}, {Key: "k2", F: n2, UF: n2, Data: d2}})
 			run(doc, fmt.Sprintf("pair %q , %q", n1, n2), true, map[string][]byte{"1": d1, "2": d2})
 		}
+	}
+	// ---- (4) collisions while the process runs out of descriptors (or hits an I/O error): three attachments, the first and
+	// the last mapping to the same output name, every intercepted call failing in turn. Whatever pdfcpu does about the
+	// failure, reporting success with fewer files than attachments (one written over the other) is never acceptable.
+	for pi, pr := range [][2]string{{"a.txt", "dir/a.txt"}, {"C:report.txt", "report.txt"}, {"x/y", "x_y"}, {"a.txt", "a.txt"}} {
+		d1, d2, d3 := []byte("first"), []byte("middle"), []byte("last")
+		doc := docgen.WithAttachments([]docgen.AttSpec{{Key: "k1", F: pr[0], UF: pr[0], Data: d1}, {Key: "k2", F: "m.bin", UF: "m.bin", Data: d2}, {Key: "k3", F: pr[1], UF: pr[1], Data: d3}})
+		want := map[string][]byte{"1": d1, "2": d2, "3": d3}
+		failAt = -1
+		run(doc, fmt.Sprintf("triple %q , m.bin , %q", pr[0], pr[1]), true, want)
+		total := nEvents
+		for _, en := range []syscall.Errno{syscall.EMFILE, syscall.EIO} {
+			for at := 0; at < total+3; at++ {
+				idx++
+				if idx%n != shard {
+					continue
+				}
+				failAt, failWith = at, en
+				run(doc, fmt.Sprintf("triple %d (%q , m.bin , %q) with call %d failing with %v", pi, pr[0], pr[1], at+1, en), true, want)
+				r.Count("faulted_collision_runs", 1)
+			}
+		}
+		failAt = -1
 	}
 	if shard == 0 {
 		r.Sample(map[string]any{"attachment": map[string]string{"key": "../escaped.txt", "F": "..", "UF": ".."}})
